@@ -201,7 +201,7 @@ static Plan gen_low(uint64_t seed, const Op &opts) {
             o.seti("t", tb[q][0]).seti("bb", tb[q][1]).seti("nin", dims[r.below(11)]).seti("nout", dims[r.below(11)]).seti("noisy", (int) r.below(2)).seti("mask", (int) r.below(4));
             if (tb[q][1] >= 10) o.seti("nin", dims[r.below(4)]).seti("nout", dims[r.below(6)]);   // base 2^bb rows: keep the key small
         }
-        if (k == "boot") o.seti("var", (int) r.below(4)).seti("xs", (int) r.below(4)).seti("mu", (int32_t) r.next());
+        if (k == "boot") o.seti("var", (int) r.below(4)).seti("xs", (int) r.below(5)).seti("mu", (int32_t) r.next());
         if (k == "bre") o.seti("fft", (int) r.below(2)).seti("barb", r.bern(0.4) ? (int) (r.below(4) == 0 ? 0 : r.below(4) == 1 ? 1023 : r.below(2) ? 1024 : 2047) : (int) r.below(2048));
         if (k == "extract") o.seti("idx", r.bern(0.3) ? (r.bern(0.5) ? 0 : 1023) : (int) r.below(1024));
         p.ops.push_back(o);
@@ -500,6 +500,12 @@ static void op_boot(const Op &o, KeyCtx *kc, RunResult &r, int opi, double nb_br
             for (int i = 0; i < n; i++) x->a[i] = (int32_t) rr.next();
             uint32_t target = (rr.bern(0.5) ? 0u : 0x80000000u) + (uint32_t) rr.range(-(1 << 22), 1 << 22);
             x->b = 0; uint32_t ph = obs::lwe_phase(x, kc->s.data(), n); x->b = (int32_t) (target - ph);
+        } else if (xs == 3) {  // coefficients exactly half-way between two multiples of 1/2N (rounding ties of the modulus switch):
+                               // the result class is then a matter of convention and is not judged, but the call must still leave its
+                               // inputs, the keys and the generator alone and be repeatable
+            const uint32_t unit = (uint32_t) ((1ull << 32) / (uint64_t) (2 * N));
+            for (int i = 0; i < n; i++) { uint32_t a = (uint32_t) rr.next(); if (i == 0 || rr.bern(0.5)) a = (a & ~(unit - 1)) | (unit >> 1); x->a[i] = (int32_t) a; }
+            uint32_t b = (uint32_t) rr.next(); if (rr.bern(0.5)) b = (b & ~(unit - 1)) | (unit >> 1); x->b = (int32_t) b;
         } else {               // random everything
             for (int i = 0; i < n; i++) x->a[i] = (int32_t) rr.next();
             x->b = (int32_t) rr.next();
